@@ -257,7 +257,12 @@ class Check:
         # build only what this property needs; do not queue for long behind other builds (after
         # ./setup.sh everything is up to date and this is a no-op)
         env = dict(os.environ, KEEP_GOING='1', LOCK_WAIT=os.environ.get('LOCK_WAIT', '300'))
-        rc, out = sh([os.path.join(COQ, 'build.sh'), 'theories/Props/%s.vo' % self.pid], timeout=3000, env=env)
+        import glob as _glob
+        # the property file (with everything it depends on) and all executable models (generated case
+        # files import Model/*Exec.v etc., which Props/<pid>.v need not depend on)
+        targets = ['theories/Props/%s.vo' % self.pid] + sorted(
+            os.path.relpath(f, COQ) + 'o' for f in _glob.glob(os.path.join(COQ, 'theories', 'Model', '*.v')))
+        rc, out = sh([os.path.join(COQ, 'build.sh')] + targets, timeout=3000, env=env)
         if rc == 75:
             self.notes.append('build lock busy: static build skipped, compiling Props/%s.v against the existing .vo files' % self.pid)
             return True, out
